@@ -51,7 +51,7 @@ def mutations(pdu: bytes, r: random.Random, full: bool) -> List[Tuple[str, bytes
     out: List[Tuple[str, bytes]] = []
     for k in range(len(pdu)):
         out.append(("prefix", pdu[:k]))
-    positions = range(len(pdu)) if full or len(pdu) <= 12 else sorted(r.sample(range(len(pdu)), 12))
+    positions = range(len(pdu)) if full or len(pdu) <= 24 else sorted(r.sample(range(len(pdu)), 24))
     for i in positions:
         for v in (0x00, 0x01, 0x7F, 0x80, 0xFF, (pdu[i] + 1) & 0xFF):
             if v != pdu[i]:
